@@ -438,7 +438,7 @@ def main(args):
         warm_only = stratum.endswith(":warm")
         name = stratum.split(":")[0]
         if tier == "quick":
-            jobs.append({"stratum": name, "a": a, "b": b, "warm": True if warm_only else rng.random() < 0.5, "budget_steps": 100, "rng": rng})
+            jobs.append({"stratum": name, "a": a, "b": b, "warm": True if warm_only else rng.random() < 0.5, "budget_steps": 70, "rng": rng})
         else:
             # warm state: every dynamic step (complete for the stated family on that pair);
             # cold state (lazy initialisation races): every distinct source line, three occurrences each
@@ -470,7 +470,7 @@ def main(args):
         "distinct_functions_with_a_switch": len(st["functions"]),
         "pairs_with_every_step_enumerated": st["pairs_fully_enumerated"],
         "exhaustive": False,
-        "exhaustive_scope": "thorough tier: every dynamic eligible step of the pre-empted call for each listed ordered pair from the warm state, plus every distinct source line (3 occurrences) from the cold state; quick tier: up to 100 distinct source lines per ordered pair",
+        "exhaustive_scope": "thorough tier: every dynamic eligible step of the pre-empted call for each listed ordered pair from the warm state, plus every distinct source line (3 occurrences) from the cold state; quick tier: up to 70 distinct source lines per ordered pair",
         "schedules_in_which_the_intruder_ran_inside_the_preempted_call": st["intruder_ran_inside"],
         "violating_schedules": st["violating_schedules"],
         "fault_kinds_fired": {"preemptions": st["schedules"], "lock_contention_resolved_by_scheduler": st["blocked_on_lock"]},
